@@ -173,6 +173,57 @@ impl MDBFileInfo {
 //@ end
 }
 
+// ---- read_all_truncated_hashes ------------------------------------------------------------------------------------------
+#[verifier::external_body]
+fn truncate_hash(hash: &MerkleHash) -> (r: u64) ensures r == hash.0[0] { unimplemented!() }
+#[verifier::external_body]
+fn read_u64(reader: &mut VxSR) -> (r: Result<u64>) ensures final(reader).data@ == old(reader).data@ { unimplemented!() }
+#[verifier::external_body]
+fn read_u32(reader: &mut VxSR) -> (r: Result<u32>) ensures final(reader).data@ == old(reader).data@ { unimplemented!() }
+// number of chunk entries in the first k blocks
+spec fn chunks_before(sec: Seq<CASChunkSequenceHeader>, k: int) -> int decreases k {
+    if k <= 0 { 0 } else { chunks_before(sec, k - 1) + sec[k - 1].num_entries }
+}
+// element `t` of the result is chunk j of block k: truncated (stored) chunk hash -> (record index of the block header, chunk index)
+spec fn trunc_ok(t: (u64, (u32, u32)), data: Seq<u8>, off: int, sec: Seq<CASChunkSequenceHeader>, k: int, j: int) -> bool {
+    t.0 == cas_entry_at(data, cas_pos(off, sec, k) + 48 + 48 * j).chunk_hash.0[0] && 48 * t.1.0 == cas_pos(off, sec, k) - off && t.1.1 == j
+}
+spec fn trunc_upto(v: Seq<(u64, (u32, u32))>, data: Seq<u8>, off: int, sec: Seq<CASChunkSequenceHeader>, k: int) -> bool {
+    forall|b: int, j: int| 0 <= b < k && 0 <= j < sec[b].num_entries ==> trunc_ok(#[trigger] v[chunks_before(sec, b) + j], data, off, sec, b, j)
+}
+spec fn tv(v: Vec<(u64, (u32, u32))>) -> Seq<(u64, (u32, u32))> { v@ }
+proof fn lemma_cas_pos_lower(off: int, sec: Seq<CASChunkSequenceHeader>, k: int)
+    requires 0 <= k <= sec.len(),
+    ensures cas_pos(off, sec, k) >= off + 48 * k + 48 * chunks_before(sec, k), chunks_before(sec, k) >= 0,
+    decreases k
+{ if k > 0 { lemma_cas_pos_lower(off, sec, k - 1); } }
+proof fn lemma_cas_pos_mono2(off: int, sec: Seq<CASChunkSequenceHeader>, i: int, j: int)
+    requires 0 <= i <= j,
+    ensures cas_pos(off, sec, i) <= cas_pos(off, sec, j)
+    decreases j - i
+{ if i < j { lemma_cas_pos_mono2(off, sec, i, j - 1); } }
+
+proof fn lemma_cas_pos_push(off: int, s0: Seq<CASChunkSequenceHeader>, x: CASChunkSequenceHeader, i: int)
+    requires 0 <= i <= s0.len(),
+    ensures cas_pos(off, s0.push(x), i) == cas_pos(off, s0, i), chunks_before(s0.push(x), i) == chunks_before(s0, i),
+    decreases i
+{ if i > 0 { lemma_cas_pos_push(off, s0, x, i - 1); assert(s0.push(x)[i - 1] == s0[i - 1]); } }
+proof fn lemma_chunks_mono(sec: Seq<CASChunkSequenceHeader>, i: int, j: int)
+    requires 0 <= i <= j <= sec.len(),
+    ensures chunks_before(sec, i) <= chunks_before(sec, j), chunks_before(sec, i) >= 0,
+    decreases j - i
+{ lemma_cas_pos_lower(0, sec, i); if i < j { lemma_chunks_mono(sec, i, j - 1); } }
+// appending result entries does not disturb the ones already there
+proof fn lemma_trunc_push(v: Seq<(u64, (u32, u32))>, t: (u64, (u32, u32)), data: Seq<u8>, off: int, sec: Seq<CASChunkSequenceHeader>, k: int)
+    requires trunc_upto(v, data, off, sec, k), 0 <= k <= sec.len(), v.len() >= chunks_before(sec, k),
+    ensures trunc_upto(v.push(t), data, off, sec, k),
+{
+    assert forall|b: int, j: int| 0 <= b < k && 0 <= j < sec[b].num_entries implies trunc_ok(#[trigger] v.push(t)[chunks_before(sec, b) + j], data, off, sec, b, j) by {
+        lemma_chunks_mono(sec, b + 1, k); lemma_chunks_mono(sec, 0, b);
+        assert(v.push(t)[chunks_before(sec, b) + j] == v[chunks_before(sec, b) + j]);
+    }
+}
+
 impl MDBShardInfo {
 // the footer count accessors say only what they are: sizes of the OPTIONAL lookup tables
 //@ extract mdb_shard/src/shard_format.rs in `impl MDBShardInfo` fn num_cas_entries
@@ -337,6 +388,104 @@ impl MDBShardInfo {
                 proof { let k = rv(ret).len() as int; if k < sec.len() { assert(file_hdr_at(data0, file_pos(off, sec, k)) == sec[k]); } }
 //@ before `let byte_start = reader.stream_position()?;`
             proof { let k = rv(ret).len() as int; if k >= sec.len() { assert(false); } lemma_file_pos_step(off, sec, k); }
+//@ end
+
+//@ extract mdb_shard/src/shard_format.rs in `impl MDBShardInfo` fn read_all_truncated_hashes
+//@ ret res
+//@ rules R4u
+//@ subst `<R: Read + Seek>` => `` :: R11 reader stub instead of the generic parameter
+//@ subst `reader: &mut R` => `reader: &mut VxSR` :: R11 seekable reader stub with ghost bytes and position
+//@ contract
+        requires
+            has_cas_section(old(reader).data@, self.metadata.cas_info_offset as int),
+            // the scan branch never tests is_bookend: it needs the CAS section to end exactly at file_lookup_offset and the bookend
+            // record to carry num_entries == 0 (true for every writer of this crate: bookend() = all-ones hash + Default)
+            self.metadata.chunk_lookup_num_entry == 0 ==> ({
+                let off = self.metadata.cas_info_offset as int; let sec = the_cas_section(old(reader).data@, off);
+                &&& self.metadata.file_lookup_offset == cas_pos(off, sec, sec.len() as int) + 48
+                &&& cas_hdr_at(old(reader).data@, cas_pos(off, sec, sec.len() as int)).num_entries == 0
+                &&& self.metadata.file_lookup_offset - off <= 48 * 0xFFFF_FFFF      // record indices fit u32
+            }),
+        ensures
+            // without a chunk lookup table: one entry per chunk of every xorb record of the section, in section order
+            res matches Ok(v) ==> (self.metadata.chunk_lookup_num_entry == 0 ==> /*@C09*/ {
+                let data = old(reader).data@; let off = self.metadata.cas_info_offset as int; let sec = the_cas_section(data, off);
+                v@.len() == chunks_before(sec, sec.len() as int) && trunc_upto(v@, data, off, sec, sec.len() as int)
+            }),
+            // with a table: exactly chunk_lookup_num_entry entries are read from it
+            res matches Ok(v) ==> (self.metadata.chunk_lookup_num_entry != 0 ==> v@.len() == self.metadata.chunk_lookup_num_entry),
+//@ body-start
+        let ghost data0 = reader.data@; let ghost off = self.metadata.cas_info_offset as int; let ghost sec0 = the_cas_section(data0, off);
+        // the section with its bookend appended as a block without entries
+        let ghost sec = sec0.push(cas_hdr_at(data0, cas_pos(off, sec0, sec0.len() as int)));
+        let ghost mut kk: int = 0; let ghost n0 = sec0.len() as int; let ghost bk = cas_hdr_at(data0, cas_pos(off, sec0, sec0.len() as int));
+        proof {
+            assert(cas_section(data0, off, sec0));
+            assert forall|i: int| 0 <= i <= n0 implies cas_pos(off, sec, i) == cas_pos(off, sec0, i) by { lemma_cas_pos_push(off, sec0, bk, i); }
+            lemma_cas_pos_lower(off, sec0, n0);
+        }
+//@ before `Ok(ret)`
+        proof {
+            if self.metadata.chunk_lookup_num_entry == 0 {
+                lemma_cas_pos_push(off, sec0, bk, n0);
+                assert(cas_pos(off, sec, n0 + 1) == cas_pos(off, sec, n0) + 48 + 48 * sec[n0].num_entries);
+                if kk <= n0 { lemma_cas_pos_mono2(off, sec, kk, n0); assert(false); }
+                assert(kk == n0 + 1);
+                assert(chunks_before(sec, n0 + 1) == chunks_before(sec, n0) + sec[n0].num_entries);
+                assert forall|b: int, j: int| 0 <= b < n0 && 0 <= j < sec0[b].num_entries implies trunc_ok(#[trigger] tv(ret)[chunks_before(sec0, b) + j], data0, off, sec0, b, j) by {
+                    lemma_cas_pos_push(off, sec0, bk, b); assert(sec[b] == sec0[b]);
+                    assert(trunc_ok(tv(ret)[chunks_before(sec, b) + j], data0, off, sec, b, j));
+                }
+            }
+        }
+//@ loop 1
+                invariant reader.data@ == data0, tv(ret).len() == vx_it1,
+//@ loop 2
+                invariant
+                    self.metadata.chunk_lookup_num_entry == 0, reader.data@ == data0, cas_section(data0, off, sec0), off == self.metadata.cas_info_offset,
+                    sec == sec0.push(bk), bk == cas_hdr_at(data0, cas_pos(off, sec0, sec0.len() as int)), n0 == sec0.len(), bk.num_entries == 0,
+                    cas_info_start == off, cas_info_end == cas_pos(off, sec0, sec0.len() as int) + 48, cas_info_end - off <= 48 * 0xFFFF_FFFF,
+                    0 <= kk <= sec.len(), reader.pos@ == cas_pos(off, sec, kk), 48 * cas_index == reader.pos@ - off,
+                    tv(ret).len() == chunks_before(sec, kk), trunc_upto(tv(ret), data0, off, sec, kk),
+                    forall|i: int| 0 <= i <= sec0.len() ==> cas_pos(off, sec, i) == cas_pos(off, sec0, i),
+                decreases sec.len() - kk,
+//@ after `let cas_header = CASChunkSequenceHeader::deserialize(reader)?;`
+                proof {
+                    // the loop condition held: the position is before the end, so this is block kk of the extended list
+                    lemma_cas_pos_mono2(off, sec, kk, sec.len() as int); lemma_cas_pos_push(off, sec0, bk, n0);
+                    assert(cas_pos(off, sec, n0 + 1) == cas_pos(off, sec, n0) + 48 + 48 * sec[n0].num_entries);
+                    if kk == sec.len() { assert(false); }
+                    if kk < n0 { lemma_cas_pos_push(off, sec0, bk, kk); assert(cas_hdr_at(data0, cas_pos(off, sec0, kk)) == sec0[kk]); assert(sec[kk] == sec0[kk]); }
+                    lemma_chunks_mono(sec, kk, kk);
+                }
+//@ before `ret.push((truncate_hash(&chunk.chunk_hash), (cas_index, chunk_index)));`
+                    let ghost rv0 = tv(ret);
+//@ after `ret.push((truncate_hash(&chunk.chunk_hash), (cas_index, chunk_index)));`
+                    proof {
+                        let old_v = rv0;
+                        assert(tv(ret) == old_v.push(tv(ret).last()));
+                        lemma_trunc_push(old_v, tv(ret).last(), data0, off, sec, kk);
+                        assert forall|j: int| 0 <= j < chunk_index + 1 implies trunc_ok(#[trigger] tv(ret)[chunks_before(sec, kk) + j], data0, off, sec, kk, j) by {
+                            if j < chunk_index { assert(tv(ret)[chunks_before(sec, kk) + j] == old_v[chunks_before(sec, kk) + j]); }
+                        }
+                    }
+//@ before `cas_index += 1 + cas_header.num_entries;`
+                proof {
+                    lemma_cas_pos_mono2(off, sec, kk + 1, sec.len() as int);
+                    assert(cas_pos(off, sec, kk + 1) == cas_pos(off, sec, kk) + 48 + 48 * sec[kk].num_entries);
+                    assert(cas_pos(off, sec, sec.len() as int) == cas_info_end) by { lemma_cas_pos_push(off, sec0, bk, n0); assert(cas_pos(off, sec, n0 + 1) == cas_pos(off, sec, n0) + 48 + 48 * sec[n0].num_entries); }
+                    assert(trunc_upto(tv(ret), data0, off, sec, kk + 1)) by {
+                        assert forall|b: int, j: int| 0 <= b < kk + 1 && 0 <= j < sec[b].num_entries implies trunc_ok(#[trigger] tv(ret)[chunks_before(sec, b) + j], data0, off, sec, b, j) by { }
+                    }
+                    kk = kk + 1;
+                }
+//@ loop 3
+                    invariant
+                        reader.data@ == data0, 0 <= kk < sec.len(), cas_header == sec[kk], off == self.metadata.cas_info_offset, tv(ret).len() >= chunks_before(sec, kk),
+                        sec == sec0.push(bk), n0 == sec0.len(),
+                        reader.pos@ == cas_pos(off, sec, kk) + 48 + 48 * chunk_index, 48 * cas_index == cas_pos(off, sec, kk) - off,
+                        tv(ret).len() == chunks_before(sec, kk) + chunk_index, trunc_upto(tv(ret), data0, off, sec, kk),
+                        forall|j: int| 0 <= j < chunk_index ==> trunc_ok(#[trigger] tv(ret)[chunks_before(sec, kk) + j], data0, off, sec, kk, j),
 //@ end
 }
 
